@@ -298,6 +298,24 @@ class Hist:
                         self.ctx.count('key_for_path-with-cosigner_id')
                     k = w.key_for_path([change, idx], **kw3)
                     self.record('at.%s.%d' % (c, idx), [k], 'key_for_path([%d, %d], %s)' % (change, idx, kw3))
+                elif r < 0.895 or (step == self.nops - 4 and not getattr(self, 'bulk_done', False)):
+                    # keys asked for in bulk from an explicit place on a chain ([change, index], n keys) - the first of them may exist already
+                    idx = rng.choice([0, 1, 2, 4, 9])
+                    nbulk = rng.choice([2, 3])
+                    if not getattr(self, 'bulk_done', False):
+                        # (once per history for certain: on the change chain, with the first key in place)
+                        self.bulk_done = True
+                        change = 1
+                        c = self.chain(wt, net, acct, change)
+                        k0_ = w.key_for_path([change, idx], **kw)
+                        self.record('at.%s.%d' % (c, idx), [k0_], 'key_for_path([%d, %d], %s)' % (change, idx, kw))
+                    self.ctx.count('keys_for_path-bulk')
+                    ks = w.keys_for_path([change, idx], number_of_keys=nbulk, **kw)
+                    for j_, k_ in enumerate(ks):
+                        self.record('at.%s.%d' % (c, idx + j_), [k_], 'keys_for_path([%d, %d], number_of_keys=%d, %s)[%d]' % (change, idx, nbulk, kw, j_))
+                        if k_.change != change:
+                            self.problems.append(('path', self.rep(real_op='keys_for_path([%d, %d], number_of_keys=%d)' % (change, idx, nbulk),
+                                                                   observed='change %s at %s' % (k_.change, k_.path), expected=change)))
                 elif r < 0.905:
                     # the account public key is asked for in the middle of the history: it must be the documented one, and it must not
                     # change what the wallet hands out afterwards
